@@ -13,12 +13,15 @@ import (
 	"io"
 	"math/big"
 
+	stded "crypto/ed25519"
+
 	"github.com/oasisprotocol/curve25519-voi/curve"
 	"github.com/oasisprotocol/curve25519-voi/curve/scalar"
 	"github.com/oasisprotocol/curve25519-voi/internal/verif/alph/alphed"
 	"github.com/oasisprotocol/curve25519-voi/internal/verif/mc"
 	"github.com/oasisprotocol/curve25519-voi/internal/verif/ref"
 	"github.com/oasisprotocol/curve25519-voi/internal/verif/ref/refx"
+	"github.com/oasisprotocol/curve25519-voi/primitives/ed25519"
 	"github.com/oasisprotocol/curve25519-voi/primitives/x25519"
 )
 
@@ -64,6 +67,9 @@ func themes(c *mc.Ctx) {
 	}
 	alphed.Par(c, "scalar-bit-lengths", 256*shapes*len(us), func(w *mc.W, i int) {
 		bl, shape, u := i/(shapes*len(us)), (i/len(us))%shapes, us[i%len(us)]
+		if !c.Thorough && (bl+i)%2 == 1 {
+			return // quick: the curve point for even, the twist point for odd bit lengths
+		}
 		k := new(big.Int)
 		if bl > 0 {
 			top := new(big.Int).Lsh(big.NewInt(1), uint(bl-1))
@@ -97,7 +103,7 @@ func themes(c *mc.Ctx) {
 		}
 	})
 	for q := 0; q < 4; q++ {
-		c.Require(fmt.Sprintf("scalar-bit-lengths/%d", q), int64(64*shapes*len(us)))
+		c.Require(fmt.Sprintf("scalar-bit-lengths/%d", q), int64(64*shapes*len(us)/2))
 	}
 
 	// ---------------------------------------------------------------- typed API: one PrivateKey / PublicKey object through [A; B; A], value copies
@@ -215,4 +221,111 @@ func themes(c *mc.Ctx) {
 			w.Fail("GenerateKey/retry", fmt.Sprintf("retry after a reader that %s: err=%v or a different key", r.name, err), nil)
 		}
 	})
+
+	// ---------------------------------------------------------------- T11: memory package x25519 hands out; T12: nil entropy source
+	alphed.Par(c, "handed-out-memory", 6, func(w *mc.W, i int) {
+		w.Eval("handed-out-memory", true)
+		k := mc.Bytes(c.Seed, "c07-handout", i, 32)
+		u := refx.X25519(mc.Bytes(c.Seed, "c07-handout-u", i, 32), nine)
+		wantBase, want := refx.X25519(k, nine), refx.X25519(k, u)
+		fill := func(b []byte) {
+			b = b[:cap(b)]
+			for j := range b {
+				b[j] = 0xff
+			}
+		}
+		globals := func(when string) {
+			if !bytes.Equal(x25519.Basepoint, nine) || len(x25519.Basepoint) != 32 || !bytes.Equal(curve.X25519_BASEPOINT[:], nine) {
+				w.Fail("package-level-value/Basepoint", when+": x25519.Basepoint / curve.X25519_BASEPOINT no longer is 9", nil)
+			}
+			if o, err := x25519.X25519(k, x25519.Basepoint); err != nil || !bytes.Equal(o, wantBase) {
+				w.Fail("package-level-value/Basepoint-path", fmt.Sprintf("%s: X25519(k, Basepoint)=%x err=%v want %x", when, o, err, wantBase), nil)
+			}
+		}
+		globals("before")
+		switch i {
+		case 0: // results of the fixed-base path must not be (or overlap) the Basepoint global
+			o1, _ := x25519.X25519(k, x25519.Basepoint)
+			o2, _ := x25519.X25519(k, x25519.Basepoint)
+			fill(o1)
+			if !bytes.Equal(o2, wantBase) {
+				w.Fail("handed-out-memory/X25519", "two X25519(k, Basepoint) results share memory", nil)
+			}
+		case 1: // general path; the converse: inputs change after the call
+			kk, uu := append([]byte{}, k...), append([]byte{}, u...)
+			o1, _ := x25519.X25519(kk, uu)
+			fill(kk)
+			fill(uu)
+			if !bytes.Equal(o1, want) {
+				w.Fail("handed-out-memory/X25519", "the result changed when the inputs were overwritten afterwards", nil)
+			}
+			fill(o1)
+		case 2: // typed API
+			priv := x25519.PrivateKey(*arr(k))
+			p1, p2 := priv.Public(), priv.Public()
+			fill(p1[:])
+			pub := x25519.PublicKey(*arr(u))
+			s1, s2 := priv.DiffieHellman(&pub), priv.DiffieHellman(&pub)
+			fill(s1[:])
+			if p1 == p2 || s1 == s2 || !bytes.Equal(p2[:], wantBase) || !bytes.Equal(s2[:], want) || !bytes.Equal(priv[:], k) || !bytes.Equal(pub[:], u) {
+				w.Fail("handed-out-memory/typed", "Public()/DiffieHellman results share memory with each other or with the keys", nil)
+			}
+		case 3: // conversions: results must not alias the Ed25519 keys
+			std := stdKey(k)
+			edPriv := ed25519.PrivateKey(append([]byte{}, std...))
+			x1 := x25519.EdPrivateKeyToX25519(edPriv)
+			x2 := x25519.EdPrivateKeyToX25519(edPriv)
+			keep := append([]byte{}, x2...)
+			fill(x1)
+			if !bytes.Equal(edPriv, std) || !bytes.Equal(x2, keep) {
+				w.Fail("handed-out-memory/EdPrivateKeyToX25519", "the result aliases the private key or an earlier result", nil)
+			}
+			edPub := ed25519.PublicKey(append([]byte{}, std[32:]...))
+			y1, ok1 := x25519.EdPublicKeyToX25519(edPub)
+			y2, ok2 := x25519.EdPublicKeyToX25519(edPub)
+			keepY := append([]byte{}, y2...)
+			if !ok1 || !ok2 {
+				w.Fail("EdPublicKeyToX25519/accept-set", "honest public key rejected", nil)
+				break
+			}
+			fill(y1)
+			if !bytes.Equal(edPub, std[32:]) || !bytes.Equal(y2, keepY) {
+				w.Fail("handed-out-memory/EdPublicKeyToX25519", "the result aliases the public key or an earlier result", nil)
+			}
+			fill(edPub) // the converse
+			if !bytes.Equal(y2, keepY) {
+				w.Fail("handed-out-memory/EdPublicKeyToX25519", "the result changed with the input", nil)
+			}
+		case 4: // key generation with a supplied reader: distinct objects
+			ent := mc.Bytes(c.Seed, "c07-handout-ent", 0, 64)
+			pub1, priv1, e1 := x25519.GenerateKey(bytes.NewReader(ent))
+			pub2, priv2, e2 := x25519.GenerateKey(bytes.NewReader(ent))
+			if e1 != nil || e2 != nil {
+				w.Fail("GenerateKey/error", fmt.Sprint(e1, e2), nil)
+				break
+			}
+			wantPub := refx.X25519(priv2[:], nine)
+			fill(pub1[:])
+			fill(priv1[:])
+			if pub1 == pub2 || priv1 == priv2 || !bytes.Equal(pub2[:], wantPub) {
+				w.Fail("handed-out-memory/GenerateKey", "GenerateKey results share memory", nil)
+			}
+		case 5: // T12: nil rand == a supplied reader as far as the contract goes
+			pubA, privA, e1 := x25519.GenerateKey(nil)
+			privB, e2 := x25519.GeneratePrivateKey(nil)
+			if e1 != nil || e2 != nil || pubA == nil || privA == nil || privB == nil {
+				w.Fail("GenerateKey/nil-rand", fmt.Sprintf("nil rand: %v %v", e1, e2), nil)
+				break
+			}
+			if !bytes.Equal(pubA[:], refx.X25519(privA[:], nine)) {
+				w.Fail("GenerateKey/nil-rand-public", fmt.Sprintf("nil rand: public %x is not X25519(private, 9)", pubA[:]), nil)
+			}
+			if *privA == *privB || refx.IsZero32(privA[:]) || refx.IsZero32(privB[:]) {
+				w.Fail("GenerateKey/nil-rand-constant", "nil rand: two generated private keys are equal or zero", nil)
+			}
+		}
+		globals("after")
+	})
 }
+
+func stdKey(seed []byte) []byte { return []byte(stded.NewKeyFromSeed(seed)) }
